@@ -595,7 +595,7 @@ Lemma r_init_keys_tag p msz km o :
   returns (init_keys p msz km o)
           (fun r => ak_tag (k_rtp_a (fst r)) = cp_taglen (p_rtp p) /\ ak_tag (k_rtcp_a (fst r)) = cp_taglen (p_rtcp p)).
 Proof.
-  unfold init_keys. apply r_bind; intros o1.
+  unfold init_keys. change derive_keys_any with derive_keys. apply r_bind; intros o1.
   destruct (derive_keys p (fst km) _) as [st [d|]] eqn:ED; [|apply r_exit].
   apply derive_keys_shape in ED. destruct ED as (E1 & [k1 E2] & [k2 E3]).
   apply r_bind; intros r. apply r_if; [apply r_bind; intros; apply r_exit|].
